@@ -24,6 +24,7 @@ import random
 import re
 import shutil
 import subprocess
+import time
 
 from vlib.common import *
 from vlib import lsp
@@ -213,7 +214,7 @@ def gen_session(rng, name, steps_lo=3, steps_hi=25):
     family = dict(FAMILY_OF)
     cfg = {"libraries": gen_libraries(rng, disk, set()), "lint": gen_lint(rng)}
     sess = {"name": name, "nolint": rng.random() < 0.05, "rel": rng.random() < 0.6,
-            "files": dict(disk), "config": json.loads(json.dumps(cfg)), "steps": []}
+            "libs": "full" if rng.random() < 0.15 else "std", "files": dict(disk), "config": json.loads(json.dumps(cfg)), "steps": []}
     n = rng.randint(steps_lo, steps_hi)
     kinds = rng.choices(["open", "open_np", "change", "config", "watched", "create", "rename", "delete"],
                         weights=[16, 4, 34, 24, 3, 7, 6, 6], k=n)
@@ -221,7 +222,11 @@ def gen_session(rng, name, steps_lo=3, steps_hi=25):
     last_reload = reloads[-1] if reloads else -1
     opened = {}           # rel -> current text (insertion ordered)
     counter = 0
+    # files the server has ever loaded as project members keep a (library-less) entry when they are excluded later;
+    # opening such a file is the same regime as a non-project document before a reload (outside the claim)
+    ever_member = {f for f in disk if member(cfg, f)}
     for i, kind in enumerate(kinds):
+        ever_member |= {f for f in disk if member(cfg, f)}
         if kind == "open_np" and i < last_reload:
             kind = "open"
         if kind == "open":
@@ -235,7 +240,7 @@ def gen_session(rng, name, steps_lo=3, steps_hi=25):
                 sess["steps"].append({"op": "open", "path": f, "text": text})
                 continue
         if kind == "open_np":
-            cands = [f for f in sorted(disk) if f not in opened and not member(cfg, f)]
+            cands = [f for f in sorted(disk) if f not in opened and not member(cfg, f) and f not in ever_member]
             if not cands:
                 kind = "change"
             else:
@@ -327,11 +332,11 @@ def canon_list(ds):
     return sorted(lsp.canon_diag(d) for d in ds)
 
 
-def fresh_view(binpath, root, opens, rel, nolint):
+def fresh_view(binpath, root, opens, rel, nolint, libs):
     """View of a freshly started server on directory `root` after replaying didOpen for the open documents."""
     env = dict(os.environ)
     env["RAYON_NUM_THREADS"] = "2"       # many short-lived servers run side by side
-    ls = lsp.LS(binpath, root, extra_args=(["--no-lint"] if nolint else []), env=env)
+    ls = lsp.LS(binpath, root, libraries=libs, extra_args=(["--no-lint"] if nolint else []), env=env)
     try:
         _resp, others = ls.initialize(caps=caps_of(rel))
         view = lsp.publish_map(others)
@@ -344,6 +349,18 @@ def fresh_view(binpath, root, opens, rel, nolint):
     except Exception:
         ls.kill()
         raise
+
+
+def std_libs_dir():
+    d = os.path.join(rundir(PROP), "libs_std")
+    p = os.path.join(d, "vhdl_ls.toml")
+    text = "[libraries]\nstd.files = ['%s/std/*.vhd']\nstd.is_third_party = true\n" % lsp.VHDL_LIBRARIES
+    if not os.path.exists(p) or open(p).read() != text:
+        os.makedirs(d, exist_ok=True)
+        with open(p + ".tmp%d" % os.getpid(), "w") as f:
+            f.write(text)
+        os.replace(p + ".tmp%d" % os.getpid(), p)
+    return d
 
 
 def write_file(path, text):
@@ -379,7 +396,10 @@ def run_session(sess, binpath, wsdir, codes, stop_at=None):
     out = {"points": [], "died": None, "source_bad": None}
     opens = []          # [(abs path, text)] in didOpen order
     view = {}
-    live = lsp.LS(binpath, root, extra_args=(["--no-lint"] if nolint else []))
+    # the installed libraries: the full set of /repo/vhdl_libraries (std + ieee, ~0.3 s to load per server start) or
+    # std only (the generated files use nothing else)
+    libs = lsp.VHDL_LIBRARIES if sess.get("libs") == "full" else std_libs_dir()
+    live = lsp.LS(binpath, root, libraries=libs, extra_args=(["--no-lint"] if nolint else []))
     pool = concurrent.futures.ThreadPoolExecutor(max_workers=2)
 
     def quiescent(step_index, step, messages, publishes, reload):
@@ -396,8 +416,8 @@ def run_session(sess, binpath, wsdir, codes, stop_at=None):
         # raw current diagnostics: a second fresh server without the [lint] table; when nothing is hidden and
         # related information is on, the fresh view itself carries them (severities are ignored by the encoder)
         need_raw = not nolint and not (rel and 0 not in rec["sev"])
-        f1 = pool.submit(fresh_view, binpath, root, list(opens), rel, nolint)
-        f2 = pool.submit(fresh_view, binpath, shadow, list(opens), True, False) if need_raw else None
+        f1 = pool.submit(fresh_view, binpath, root, list(opens), rel, nolint, libs)
+        f2 = pool.submit(fresh_view, binpath, shadow, list(opens), True, False, libs) if need_raw else None
         fv = f1.result()
         rec["fresh"] = lsp.canon_view(fv)
         rec["raw"] = f2.result() if f2 else ({} if nolint else fv)
@@ -700,7 +720,7 @@ def judge(sess, run, predicted, points):
 
 
 def session_key(sess):
-    return hashlib.sha1(json.dumps({k: sess[k] for k in ("nolint", "rel", "files", "config", "steps")},
+    return hashlib.sha1(json.dumps({k: sess.get(k) for k in ("nolint", "rel", "libs", "files", "config", "steps")},
                                    sort_keys=True).encode()).hexdigest()
 
 
@@ -708,7 +728,11 @@ def session_key(sess):
 def main(tier, replay=None):
     res = Result(PROP, tier, level="proof")
     d = rundir(PROP)
+    phases = {}
+    t_phase = time.time()
     proof_stage(res, PROP, thorough=(tier == "thorough"))
+    phases["proof_stage"] = round(time.time() - t_phase, 1)
+    t_phase = time.time()
     ok, log, binpath = vhdl_ls_build()
     if not ok:
         res.violation("vhdl_ls build failed against the current /repo tree", {"kind": "build", "log": log[-3000:]},
@@ -719,6 +743,9 @@ def main(tier, replay=None):
         res.violation("extracted model build failed", {"kind": "build", "log": log[-3000:]}, no_failing_input=True)
         return res.finish()
     codes = error_codes()
+    std_libs_dir()
+    phases["builds"] = round(time.time() - t_phase, 1)
+    t_phase = time.time()
 
     sessions = []
     if replay:
@@ -728,7 +755,7 @@ def main(tier, replay=None):
         corpus = os.path.join(VERIF, "corpus", "C14.sessions.json")
         if os.path.exists(corpus):
             sessions += json.load(open(corpus))["sessions"]
-        n = 1500 if tier == "thorough" else 34
+        n = 1500 if tier == "thorough" else 40
         hi = 25
         rng = random.Random(seed() * 7919 + (1 if tier == "thorough" else 0))
         for i in range(n):
@@ -753,6 +780,8 @@ def main(tier, replay=None):
             else:
                 runs[ix] = run
 
+    phases["sessions"] = round(time.time() - t_phase, 1)
+    t_phase = time.time()
     # model runs (one batch)
     lines, meta = [], []
     for ix in sorted(runs):
@@ -840,6 +869,8 @@ def main(tier, replay=None):
                           {"kind": "correspondence", "correspondence": "extraction vs vm_compute (RH.Lsp.DiagCache.run_trace)",
                            "log": log[-2000:]}, no_failing_input=True)
 
+    phases["model_judge_coq_sample"] = round(time.time() - t_phase, 1)
+    res.coverage["phase_seconds"] = phases
     res.coverage["sessions"] = len(runs)
     res.coverage["quiescent_points_compared"] = totals["points"]
     res.coverage["fresh_servers_started"] = sum(rec["fresh_servers"] for ix in runs for rec in runs[ix]["points"])
